@@ -51,6 +51,11 @@ def run(ctx):
             structured.append([1, 0] * (pre // 2) + [0] + [1] * run_len + [0, 1, 1, 0] * (post // 2))
     structured.append([1] * 255 + [0] + [1] * 256 + [0] + [1] * 254)
     structured.append([0, 1] * 400)
+    # stretches of zeros whose length + 1 is a multiple of 256 (a position difference kept in 8 bits would read them as adjacency)
+    for k in (1, 2, 3):
+        structured.append([1] + [0] * (256 * k) + [1])
+        structured.append([1] * 5 + [0] * (256 * k) + [1] * 7 + [0] * 3)
+        structured.append([0] * 4 + [1] * 3 + [0] * (256 * k - 1) + [1] * 2)     # one short of the multiple: control
     for s in structured:
         lro.append(dict(data=[s], exhaustive=False))
     for _ in range(300 if ctx.thorough else 60):
